@@ -17,6 +17,22 @@ SumOver(S, F(_)) == LET RECURSIVE Go(_)
                                  ELSE LET x == CHOOSE y \in T : TRUE IN F(x) + Go(T \ {x})
                     IN Go(S)
 
+(***************************************************************************)
+(* Length coverage (subpath_constraints_coverage_length, DAG models): an   *)
+(* edge without the length attribute counts 1; a constraint is honoured by *)
+(* a route when the listed positions lying on the route carry at least the *)
+(* fraction n/d of the total listed length (positions counted with         *)
+(* multiplicity, as in the library's encoding 7a).                         *)
+(***************************************************************************)
+ELen(r, e) ==
+  IF "elen" \notin DOMAIN r \/ r.elen = <<>> THEN 1
+  ELSE LET I == {i \in 1..Len(r.edges) : r.edges[i][1] = e[1] /\ r.edges[i][2] = e[2]} IN
+       IF I = {} THEN 1
+       ELSE LET i == CHOOSE x \in I : TRUE IN IF r.elen[i] = -999999 THEN 1 ELSE r.elen[i]
+LenSum(r, c, J) == SumOver(J, LAMBDA j : ELen(r, c[j]))
+UsesLengthCoverage(r) == "covlen" \in DOMAIN r /\ r.covlen[1] > 0
+HonouredByLength(r, c, J) == LenSum(r, c, J) * r.covlen[2] >= LenSum(r, c, 1..Len(c)) * r.covlen[1]
+
 (* Sum over routes of weight * number of traversals of edge e *)
 Explained(e, routes, weights) ==
   SumSeq([i \in 1..Len(routes) |-> weights[i] * Count(e, routes[i])])
